@@ -24,6 +24,15 @@ def one(d):
     tmp = tempfile.mkdtemp(prefix="simkit-seed-")
     root = os.path.join(tmp, "repo")
     out = {"seed_id": meta["seed_id"], "property": prop}
+    if meta.get("outside_quantifier"):
+        out.update({"skipped": "manifests only outside the property's quantifier", "caught": None})
+        shutil.rmtree(tmp, ignore_errors=True)
+        return out
+    if meta.get("superseded_by_fix"):
+        # the defect this change planted coincided with a genuine one that a later fix: commit repaired; it has no effect any more
+        out.update({"skipped": "superseded by fix " + meta["superseded_by_fix"], "caught": None})
+        shutil.rmtree(tmp, ignore_errors=True)
+        return out
     try:
         shutil.copytree("/repo", root, ignore=shutil.ignore_patterns(".git", "__pycache__", "notebooks", "images", "docs"))
         p = subprocess.run(["git", "apply", os.path.join(d, "patch.diff")], cwd=root, capture_output=True, text=True)
@@ -67,11 +76,12 @@ def main():
     res = []
     with ThreadPoolExecutor(max_workers=int(os.environ.get("SEEDED_JOBS", "3"))) as ex:
         for r in ex.map(one, dirs):
-            print(f"{'CAUGHT' if r.get('caught') else 'MISSED'} {r['seed_id']:<14} exit={r.get('exit')} runs={r.get('violation_runs')} {r.get('invariants')} {r.get('error', '')} [{r.get('wall_s')}s]", flush=True)
+            print(f"{'SKIPPED' if r.get('skipped') else 'CAUGHT' if r.get('caught') else 'MISSED'} {r['seed_id']:<14} exit={r.get('exit')} runs={r.get('violation_runs')} {r.get('invariants')} {r.get('error', '')} [{r.get('wall_s')}s]", flush=True)
             res.append(r)
     if not only:
         with open(os.path.join(VERIF, "evidence", "seeded.json"), "w") as f:
-            json.dump({"results": res, "caught": sum(1 for r in res if r.get("caught")), "total": len(res)}, f, indent=1)
+            json.dump({"results": res, "caught": sum(1 for r in res if r.get("caught")), "skipped": sum(1 for r in res if r.get("skipped")),
+                       "total": len(res)}, f, indent=1)
     print(f"seeded: {sum(1 for r in res if r.get('caught'))}/{len(res)} caught")
     return 0
 
